@@ -334,7 +334,34 @@ def run(project, chk):
     for n in own_nodes(get.node):
         if isinstance(n, ast.Call) and isinstance(n.func, ast.Attribute) and n.func.attr in ("rglob", "glob") and n.args:
             globs.append((n, const_str(n.args[0])))
+    if not globs:
+        # a hand-written directory walk: one necessary condition of "every stylesheet of the tree is visited" is decidable by shape --
+        # the descent into a sub-directory must not depend on the entry's *name* failing the stylesheet test
+        from sa.effects import Effects as _Eff3
+        _e3 = _Eff3(project)
+        for wq in sorted(_e3.reach(GET) | {GET}):
+            wfi = project.funcs.get(wq)
+            if wfi is None or wfi.module is not get.module:
+                continue
+            wsc = Scope(project, wfi)
+            rec = [c for c in own_nodes(wfi.node) if isinstance(c, ast.Call) and wsc.resolve_call(c) == wq]
+            lists_dir = any(isinstance(c, ast.Call) and isinstance(c.func, ast.Attribute) and c.func.attr in ("iterdir", "scandir", "listdir") for c in own_nodes(wfi.node))
+            if not rec or not lists_dir:
+                continue
+            wcfg = build_cfg(wfi.node)
+            wG = guard_states(wcfg)
+            for node in wcfg.nodes:
+                for e in node_exprs(node):
+                    for c in ast.walk(e):
+                        if c in rec:
+                            lits = common_literals(wG.get(node.id))
+                            bad = [t for (t, v) in lits if not v and (".endswith(" in t or ".suffix ==" in t or ".suffix in" in t)]
+                            chk.check(not bad, "I3", wfi.short, norm_text(c), project.loc(wfi.module, c), "the walk descends into every sub-directory, whatever its name",
+                                      how=f"guards of the recursive call: {sorted(lits)}",
+                                      message=f"the walk descends into a sub-directory only when `{bad[0] if bad else ''}` is false: stylesheets below a directory whose own name passes the stylesheet test are never visited (Path.rglob visits them), so a directory run no longer produces what the single-file runs produce")
     chk.floor("rglob/glob calls in get_css_files", len(globs), 1)
+    if not globs:
+        return      # without a glob pattern the filter / suffix rules below have nothing to relate to (the unmet floor makes the run inconclusive unless the walk rule reported)
     exts = set()
     for n, pat in globs:
         if pat is None or not pat.startswith("*.") or any(ch in pat[2:] for ch in "*?["):
